@@ -448,9 +448,12 @@ bool BW_MidiSequencer::setChannelEnabled(size_t channel, bool enable)
     return true;
 }
 
-void BW_MidiSequencer::setSoloTrack(size_t track)
+bool BW_MidiSequencer::setSoloTrack(size_t track)
 {
+    if(track != ~static_cast<size_t>(0) && track >= m_trackData.size())
+        return false; // No such track: every track would be muted
     m_trackSolo = track;
+    return true;
 }
 
 void BW_MidiSequencer::setSongNum(int track)
